@@ -214,6 +214,27 @@ func c07Guard(c *Ctx, sx *symx.Ctx, su, pf *ssa.Function) {
 							good = false
 						}
 					}
+					if !good && field == "UseFuzzy" {
+						// or: the flag is only ever branched on, and only where the
+						// lexical stage has already come up empty — whatever it decides
+						// there cannot change an answer that exists
+						alt := true
+						nIf := 0
+						for _, r2 := range *u.Referrers() {
+							switch y := r2.(type) {
+							case *ssa.If:
+								nIf++
+								var emptyOf []string
+								if !c07GuardedBy(c, sx, reach, su, fn, y.Block(), "empty", &emptyOf, 0) {
+									alt = false
+								}
+							case *ssa.DebugRef:
+							default:
+								alt = false
+							}
+						}
+						good = alt && nIf > 0
+					}
 					r.Check(good, "O-1", fmt.Sprintf("%s#read-%s-%d", load.FuncKey(fn), field, n), c.P.Pos(u.Pos()), "read only as the fallback guard", "options."+field+" is read on the search path outside the fallback guard: it can influence answers that exist")
 				}
 			})
